@@ -646,6 +646,22 @@ def runInit (items : List Item) (isRoot isSr : Bool) : Except ErrKind Seq :=
   | (σ, none) => .ok σ.s
   | (_, some e) => .error e
 
+/-- `ContentSequence([…, other, …])`: the first statement of the REGENERATED constructor program that looks at the single
+items decides how something that is not a content item is refused — `self._lut[i.name]` (a plain `Dataset` has no `name`:
+AttributeError) or the `isinstance` arm of the checks (TypeError).  (`str` / `None` / `int` do not get that far: pydicom's
+`Sequence.__init__` refuses what is not a `Dataset`.)  No object exists afterwards either way. -/
+def ctorOtherRefusal : List MStmt → Option ErrKind
+  | [] => none
+  | .lutAppendArgs :: _ => some .attribute
+  | .checkEach _ :: _ => some .type
+  | _ :: r => ctorOtherRefusal r
+
+/-- construction from items among which one is not a content item -/
+def constructOther : Except ErrKind Seq :=
+  match ctorOtherRefusal Gen.csProg_init with
+  | some e => .error e
+  | none => .error .runtime
+
 def flagOf (own : Bool) : FlagSrc → Bool
   | .own => own
   | .constTrue => true
